@@ -55,7 +55,9 @@ class Thread(threading.Thread):
     def start(self):
         # Create the Future before the thread starts, so that `wait` and `as_completed`
         # can be used right after `start` returns (the new thread may not have run yet).
-        self._future_ = concurrent.futures.Future()
+        # An erroneous second `start` must not replace the Future of the first one.
+        if self._future_ is None:
+            self._future_ = concurrent.futures.Future()
         super().start()
 
     def run(self):
